@@ -566,6 +566,24 @@ def rule_parallel_copy(ctx: Ctx, typed: Typed):
                f"the candidate is the immediately preceding citation (`{src}`) and both are FullCaseCitation (guards {texts})", node=call, mod=mod)
 
 
+def rule_metadata_is_passive(ctx: Ctx):
+    """R-C17-5: the Metadata dataclasses hold what extraction stored, unchanged.  A __post_init__ / __setattr__ / property setter on a Metadata
+    class rewrites values after the provenance rules have seen them stored (e.g. punctuation stripped from an antecedent: 'held--Adarand' becomes
+    'heldAdarand', which is not text of the input)."""
+    repo = ctx.repo
+    mm = repo.mod("models")
+    n = 0
+    for cname, ci in repo.classes.items():
+        for st in ci.node.body:
+            if isinstance(st, ast.ClassDef) and st.name == "Metadata":
+                n += 1
+                hooks = [x.name for x in st.body if isinstance(x, ast.FunctionDef) and x.name in ("__post_init__", "__setattr__", "__init__", "__getattribute__", "__getattr__")]
+                hooks += [x.name for x in st.body if isinstance(x, ast.FunctionDef) and any("setter" in norm(d) or norm(d) == "property" for d in x.decorator_list)]
+                ctx.ob("R-C17-5", f"models.{cname}.Metadata/passive", not hooks,
+                       f"the metadata record defines no hook that can rewrite a stored value ({hooks})", node=st, mod=mm, nontrivial=bool(hooks))
+    ctx.ob("R-C17-5", "models/metadata-classes", n >= 5, f"{n} Metadata classes inspected", node=None, mod=mm, nontrivial=False)
+
+
 def run(ctx: Ctx):
     ctx.level = "other"
     ctx.explanation = (
@@ -599,6 +617,7 @@ def run(ctx: Ctx):
     from .. import materialize
 
     ctx.guard(rule_group_anchoring, ctx, materialize.load(ctx.repo.root), "R-C17-5")
+    ctx.guard(rule_metadata_is_passive, ctx)
     ctx.floor("R-C17-1", 25)
     ctx.floor("R-C17-2", 5)
     ctx.floor("R-C17-3", 5)
